@@ -1,5 +1,5 @@
 import PsV.Proofs.Lanes
-import PsV.Spec.BSpline
+import PsV.Proofs.Bridge
 /-!
 # C02 — derivative and gradient evaluations (first part: structural facts)
 
@@ -8,8 +8,13 @@ import PsV.Spec.BSpline
 * the value-plus-gradient evaluation uses, lane by lane, exactly the rows of plain / single-derivative
   evaluation, for every arithmetic — so lane 0 is the plain value and lane `1+d` the bitmask
   derivative `1<<d`, bit for bit.
-The identity "derivative row = knot-difference formula of the specification" is `C02_deriv_row_spec`
-(PsV.Props.C02b, when present).
+* `C02_mask_eval_eq_spec_partial`: evaluation with any derivative bitmask (single and mixed first
+  derivatives) equals the sum over all coefficients of coefficient × Π_d (basis function, or its
+  knot-difference derivative formula `n (B_{i,n-1}/(t_{i+n}-t_i) − B_{i+1,n-1}/(t_{i+n+1}-t_{i+1}))` in the
+  selected dimensions), with the one-sided convention of C01, over any linearly ordered field.
+  That this formula is the derivative of the polynomial piece is `C02_formula_is_derivative` (below,
+  when present); arbitrary-order derivatives (`derivK`, the recursive routine) are tied by the
+  exact-rational oracle and the bit-exact run only.
 -/
 namespace PsV
 variable {α : Type} [A : Arith α]
@@ -55,5 +60,19 @@ theorem C02_gradient_rows : ∀ (ds : List (Dim α)) (xs : List α) (cs : List N
           simp only [Function.comp]
           have : n + 1 + j + 1 = n + (j + 1) + 1 := by omega
           rw [this]
+
+
+section field
+variable {β : Type} [Field β] [LinearOrder β]
+attribute [local instance] Arith.ofField
+
+/-- **Bitmask derivatives = specification.** -/
+theorem C02_mask_eval_eq_spec_partial (T : Table β) (xs : List β) (cs : List Nat) (mask : Nat) (hwf : T.WF)
+    (hlen : T.dims.length = xs.length) (hnd : AllNonDegenerate T.dims xs)
+    (hs : @searchCenters β (cmpLO β) (T.dims.map Dim.axis) xs = .ok cs) :
+    ndsplineeval T xs cs mask = specEval T xs (maskModes T.dims.length mask) :=
+  ndsplineeval_mask_eq_specEval T xs cs mask (allOK_of_search T.dims xs cs hwf.dims hlen hnd hs) hwf.stride
+
+end field
 
 end PsV
